@@ -667,7 +667,7 @@ func ireqFamily(run *vk.Run) *family {
 func shapesFamily(run *vk.Run) *family {
 	s := fedlab.SShapes()
 	return nearFamily(run, "S-shapes", s, fedlab.SShapesUniverse(s), func(r fedlab.FieldRef) int {
-		if r.Type == "Owner" || r.Field == "secret" || r.Field == "tags" || r.Field == "open" || r.Field == "ratio" || r.Field == "meta" {
+		if r.Type == "Owner" || r.Field == "secret" || r.Field == "tags" || r.Field == "open" || r.Field == "ratio" || r.Field == "meta" || r.Field == "nums" || r.Field == "code" {
 			return 1
 		}
 		return 0
